@@ -269,26 +269,12 @@ def symbolize_minima_expression(
             #       logic already replaces gamma_plus-terms with the bare rank when
             #       gamma_plus_zero=True, so there is no risk of undervaluing costs.
 
-            added = False
-
-            # Build expression for rejected conditionals (gamma_minus part); this is the
-            # essential component for our optimisation irrespective of gamma_plus.
-            if rejected_indices:
-                rejected_sum = Plus([_gamma(f"gamma-_{i}") for i in rejected_indices])
-                results[index].append(Plus([rejected_sum, Int(rank)]))
-                added = True
-
-            # Include gamma_plus part only when they contribute (i.e. not fixed to zero).
-            if accepted_indices and not gamma_plus_zero:
-                accepted_sum = Plus([_gamma(f"gamma+_{i}") for i in accepted_indices])
-                results[index].append(Plus([accepted_sum, Int(rank)]))
-                added = True
-
-            # If this triple yielded no expression (e.g. gamma_plus fixed to 0 AND no gamma_minus
-            # violations), fall back to the plain rank so every triple influences
-            # the minima calculation.
-            if not added:
-                results[index].append(Int(rank))
+            # One summand per world: rank + gamma_minus of the rejected + gamma_plus of the accepted
+            # conditionals (the latter contribute nothing when gamma_plus are fixed to zero).
+            terms = [_gamma(f"gamma-_{i}") for i in rejected_indices]
+            if not gamma_plus_zero:
+                terms.extend(_gamma(f"gamma+_{i}") for i in accepted_indices)
+            results[index].append(Plus(terms + [Int(rank)]))
 
     return results
 
